@@ -296,4 +296,46 @@ theorem reopen_read_all (h : H) (s : Store) (inv : RwInv h s) {fmt : Nat} {ch sr
     obtain ⟨h', s', ho, r⟩ := v.reopen_wav cfg hc hsr hg ix pos fmt ch sr (by rw [cfg.cont, hc]; simp)
     exact ⟨h', s', ho, hfin h' s' ho r⟩
 
+/-! ## close, then open SFM_RDWR again -/
+
+/-- the data section ends on an even offset, so `wav_close` appends no pad byte (always true for RAW / AU) -/
+def NoPad (h : H) : Prop := h.container = .wav → (h.dataoffset + h.frames * (h.bw : Int)) % 2 = 0
+
+theorem reopen_rw_effect (h : H) (s : Store) (inv : RwInv h s) {fmt : Nat} {ch sr : Int} (cfg : CfgOf fmt ch sr h)
+    (hsr : sr ≤ 0x7FFFFFFF) (hguard : h.container = .wav → h.frames * (h.bw : Int) < 0xFFFFFFFF) (hnp : NoPad h)
+    (ix pos : Nat) :
+    ∃ h' s', openHandle ix ⟨(closeHandle h s).bytes, pos⟩ .rw fmt ch sr = .ok h' s' ∧ RwInv h' s' ∧
+      absOf h' s' = { frames := (absOf h s).frames, rpos := 0, wpos := (absOf h s).frames.length } ∧
+      h'.frames = h.frames ∧ h'.ch = h.ch ∧ h'.enc = h.enc := by
+  obtain ⟨R, W, F, hdr, D, v⟩ := inv
+  have hfin : ∀ h' s', ReopenedRw h F D h' s' → RwInv h' s' ∧
+      absOf h' s' = { frames := (absOf h s).frames, rpos := 0, wpos := (absOf h s).frames.length } ∧
+      h'.frames = h.frames ∧ h'.ch = h.ch ∧ h'.enc = h.enc := by
+    intro h' s' r
+    refine ⟨r.inv, by rw [r.abs, v.abs]; simp only; rw [v.nframes], ?_, r.ch, r.enc⟩
+    have := r.inv.nframes
+    rw [r.abs] at this
+    simp only at this
+    rw [v.nframes] at this
+    rw [← this, v.frames]
+  cases hc : h.container with
+  | raw =>
+    obtain ⟨h', s', ho, r⟩ := v.reopen_rw_raw cfg hc ix pos
+    exact ⟨h', s', ho, hfin h' s' r⟩
+  | au =>
+    obtain ⟨h', s', ho, r⟩ := v.reopen_rw_au cfg hc hsr ix pos fmt ch sr (by rw [cfg.cont, hc]; simp)
+    exact ⟨h', s', ho, hfin h' s' r⟩
+  | wav =>
+    have e : ((D.length : Nat) : Int) = (F : Int) * (h.bw : Int) := by rw [v.dlen]; push_cast; rfl
+    have hg : D.length < 0xFFFFFFFF := by
+      have := hguard hc
+      rw [v.frames] at this
+      omega
+    have hev : (hdrLenOf h + D.length) % 2 = 0 := by
+      have := hnp hc
+      rw [v.doff, v.frames, ← e] at this
+      omega
+    obtain ⟨h', s', ho, r⟩ := v.reopen_rw_wav cfg hc hsr hg hev ix pos fmt ch sr (by rw [cfg.cont, hc]; simp)
+    exact ⟨h', s', ho, hfin h' s' r⟩
+
 end Sf
